@@ -138,6 +138,55 @@ def gen_sum(chk):
     return jobs
 
 
+def gen_boundio(chk):
+    """-> list of (maxbytes, [chunks]): every sequence of <= 4 (thorough 5) writes with sizes in
+    {0, 1, mb-1, mb, mb+1, 2mb} for mb in 1..6, <= 3 writes for a few larger bounds, random."""
+    jobs = []
+
+    def chunks_of(sizes):
+        out, k = [], 0
+        for n in sizes:
+            out.append(bytes(((k + i) % 250) + 1 for i in range(n)))
+            k += n
+        return out
+    maxlen = 4 if chk.tier == 'quick' else 5
+    for mb in range(1, 7):
+        sizes = sorted(set([0, 1, mb - 1, mb, mb + 1, 2 * mb]))
+        for n in range(1, maxlen + 1):
+            for t in itertools.product(sizes, repeat=n):
+                jobs.append((mb, chunks_of(t)))
+    for mb in (10, 24, 30, 100):
+        sizes = sorted(set([0, 1, mb // 2, mb - 1, mb, mb + 1, 2 * mb]))
+        for n in range(1, 4):
+            for t in itertools.product(sizes, repeat=n):
+                if sum(t) <= 3 * mb:
+                    jobs.append((mb, chunks_of(t)))
+    for mb in (0, -1):
+        for t in itertools.product([0, 1, 2], repeat=2):
+            jobs.append((mb, chunks_of(t)))
+    rng = chk.rng
+    for _ in range(500 if chk.tier == 'quick' else 10000):
+        mb = rng.choice([1, 2, 3, 5, 8, 13, 40])
+        jobs.append((mb, chunks_of([rng.choice([0, 1, 2, mb - 1, mb, mb + 1, rng.randrange(0, 2 * mb + 2)])
+                                    for _ in range(rng.randrange(1, 7))])))
+    return jobs
+
+
+def gen_cuts(chk, B, E):
+    """-> list of (stream, capmax, stride): a section whose length is just below / equal to /
+    just above / twice capture_maxbytes, behind an ordinary prefix long enough for the scanner
+    to flush parts of it to the capture log before the END tag arrives; every 2-read split
+    and the 3-read splits at multiples of `stride`."""
+    jobs = []
+    caps = (8, 30, 40, 100) if chk.tier == 'quick' else (1, 8, 23, 24, 25, 30, 40, 100)
+    for cap in caps:
+        for ln in sorted(set([cap - 1, cap, cap + 1, 2 * cap])):
+            payload = bytes(33 + (i % 90) for i in range(ln))
+            s = b'ordinary output before the section ' + B + payload + E + b'q'
+            jobs.append((s, cap, 7 if chk.tier == 'quick' else 3))
+    return jobs
+
+
 # ------------------------------------------------------------------ running
 
 def frags_lit(frags):
@@ -163,15 +212,65 @@ def _run(chk, wd, proved):
     table = H.sym_table(B, E)
     ejobs = gen_exact(chk, H, B, E, table)
     sjobs = gen_sum(chk)
+    bjobs = gen_boundio(chk)
+    cjobs = gen_cuts(chk, B, E)
     corpus = _load_corpus()
     ejobs = corpus + ejobs
     ctx = multiprocessing.get_context('fork')
     with ctx.Pool(vlib.NCPU, initializer=H._worker_init, initargs=(wd,)) as pool:
         eres = pool.map(H.exact_job, [j[1:] for j in ejobs], chunksize=64)
         sres = pool.map(H.sum_job, sjobs, chunksize=64)
+        bres = pool.map(H.boundio_job, bjobs, chunksize=256)
+        cres = pool.map(H.cuts_job, cjobs, chunksize=1)
 
     distinct = set()
     nruns = 0
+    # ---- BoundIO alone
+    bcases = []
+    for (mb, chunks), (bufs, why) in zip(bjobs, bres):
+        nruns += 1
+        chk.dist('boundio:mb=%s' % (mb if mb <= 6 else 'large'))
+        if why and len([1 for _p, nf in chk.violations if not nf]) < 5:
+            chk.violation({'kind': 'the real BoundIO violates the capture-buffer law C08 relies on', 'why': why,
+                           'maxbytes': mb, 'writes': [list(c) for c in chunks], 'buffer_after_each_write': [list(b) for b in bufs]},
+                          name='boundio-%d-%s' % (mb, '-'.join(str(len(c)) for c in chunks)))
+        distinct.add(('b', mb, tuple(len(b) for b in bufs)))
+        bcases.append('(%s, %s, %s)' % (zlit(mb), frags_lit(chunks), frags_lit(bufs)))
+    bad, errs = vlib.coq_compare(IMPORTS, 'Z * list bytes * list bytes', 'check_boundio', bcases, wd, tag='boundio', shard=800)
+    for e in errs:
+        chk.violation({'kind': 'model evaluation failed', 'part': 'boundio', 'error': e}, nofail=True)
+    for i in bad[:5]:
+        chk.violation({'kind': 'model of BoundIO.write and implementation disagree', 'maxbytes': bjobs[i][0],
+                       'writes': [list(c) for c in bjobs[i][1]], 'buffer_after_each_write': [list(b) for b in bres[i][0]]},
+                      nofail=not bres[i][1])
+    # ---- byte-level cuts around capture_maxbytes
+    ccases = []
+    for (s, cap, stride), (total, n, badj) in zip(cjobs, cres):
+        nruns += n
+        chk.dist('cuts:cap=%d' % cap, n)
+        for c1, c2, why in (badj[:2] if len(chk.violations) < 12 else []):
+            chk.violation({'kind': 'the implementation violates C08 on this input (judged by the reference splitter)',
+                           'why': why, 'case': _jsonable_job(('cuts', H.cut_frags(s, c1, c2), cap, 'stdout', False))})
+        distinct.add(('c', total))
+        ccases.append('(%s, %s, %d%%nat, %s)' % (vlib.bytes_lit(s), zlit(cap), stride, zlit(total)))
+    bad, errs = vlib.coq_compare(IMPORTS, 'bytes * Z * nat * Z', 'check_cuts', ccases, wd, tag='cuts', shard=1)
+    for e in errs:
+        chk.violation({'kind': 'model evaluation failed', 'part': 'cuts', 'error': e}, nofail=True)
+    if bad:
+        H._worker_init(wd)
+        loc, loc_meta = [], []
+        s, cap, stride = cjobs[bad[0]]
+        for (c1, c2) in H.cut_pairs(len(s), stride)[:400]:
+            job = ('cuts', H.cut_frags(s, c1, c2), cap, 'stdout', False)
+            tr, why, summ = H.exact_job(job[1:])
+            if tr is not None:
+                loc.append(exact_term(job, tr))
+                loc_meta.append((job, tr))
+        b2, errs = vlib.coq_compare(IMPORTS, 'Z * list bytes * list Z', 'check_exact', loc, wd, tag='cloc', shard=50)
+        _report(chk, b2, errs, loc_meta, loc, 'cuts->exact')
+        if not b2:
+            chk.violation({'kind': 'checksum over the byte-level cuts differs but none of the first 400 runs does',
+                           'stream': list(s), 'capture_maxbytes': cap}, nofail=True)
     # ---- level A
     plain, plain_meta, pl, pl_meta = [], [], [], []
     known_plog = 0
@@ -257,7 +356,10 @@ def _run(chk, wd, proved):
                    'after every read; exhaustive: every fragmentation at symbol boundaries of every stream of n symbols over '
                    '{BEGIN, END, BEGIN-prefix, BEGIN-suffix, common prefix, END-suffix, "a", 0xFF} for n <= %d '
                    '(n<=3 exact traces, n>=4 by checksum over all fragmentations; quick tier: n=5 without 0xFF), every byte-level single cut and double cut of '
-                   'canonical streams, capture_maxbytes in %r and -1; distinct_nontrivial = distinct (log length, events, event '
+                   'canonical streams, capture_maxbytes in %r and -1; the real BoundIO alone on every sequence of <= 4 writes with '
+                   'sizes {0,1,mb-1,mb,mb+1,2mb} for mb in 1..6 (+ larger bounds, random); sections of length cap-1, cap, cap+1, 2cap '
+                   'for cap in {8,30,40,100} behind a flushing prefix with every 2-read split and 3-read splits at multiples of 7; '
+                   'distinct_nontrivial = distinct (log length, events, event '
                    'lengths, mode) outcomes of exact runs in which a tag was recognised, plus distinct stream checksums'
                    % (5 if chk.tier == 'quick' else 6, CAPS))
     cov['samples'] = [_jsonable_job(j) for j in (ejobs[5], ejobs[len(ejobs) // 2], ejobs[-1])]
